@@ -62,6 +62,8 @@ type world struct {
 	mergedOverlap bool
 	reuseOpts     bool
 	aliasOrder    []string
+	lenPtrs       map[int]*int
+	jsonFO        *entry.FetchOptions
 	logConc       uint // LogOptions.Concurrency of the replicas of this history (0 = default)
 	// codec configuration of the history: nil = default, otherwise link-encrypting with one shared key
 	io    iface.IO
@@ -409,11 +411,26 @@ func (w *world) doTamper(src int, oldest bool) {
 func (w *world) doLoad(src int, kind string, n int, writer string, conc int) {
 	s := w.reps[src]
 	ident := w.ids.Identity(writer)
+	// one limit variable per value and history, reused by every load with that limit, as a caller
+	// keeping its options would: a loader must not write through the pointer
 	var lp *int
 	if n >= 0 {
-		v := n
-		lp = &v
+		if w.lenPtrs == nil {
+			w.lenPtrs = map[int]*int{}
+		}
+		if p, ok := w.lenPtrs[n]; ok {
+			lp = p
+		} else {
+			v := n
+			lp = &v
+			w.lenPtrs[n] = lp
+		}
 	}
+	defer func() {
+		if lp != nil && *lp != n {
+			fmt.Fprintf(w.out, "LP %d %d\n", n, *lp)
+		}
+	}()
 	var nl *ipfslog.IPFSLog
 	var err error
 	res := "ok"
@@ -441,8 +458,13 @@ func (w *world) doLoad(src int, kind string, n int, writer string, conc int) {
 			nl, err = ipfslog.NewFromEntryHash(w.ctx, w.api, ident, hs[0].GetHash(), &ipfslog.LogOptions{ID: s.id, SortFn: sortFnOf(s.sort), IO: w.io},
 				&ipfslog.FetchOptions{Length: lp, Concurrency: conc})
 		case "json":
-			nl, err = ipfslog.NewFromJSON(w.ctx, w.api, ident, s.log.ToJSONLog(), &ipfslog.LogOptions{SortFn: sortFnOf(s.sort), IO: w.io},
-				&entry.FetchOptions{Length: lp, Concurrency: conc})
+			// one FetchOptions value per history, reused by every NewFromJSON (fresh LogOptions each time),
+			// as a caller keeping its fetch options would
+			if w.jsonFO == nil {
+				w.jsonFO = &entry.FetchOptions{}
+			}
+			w.jsonFO.Length, w.jsonFO.Concurrency = lp, conc
+			nl, err = ipfslog.NewFromJSON(w.ctx, w.api, ident, s.log.ToJSONLog(), &ipfslog.LogOptions{SortFn: sortFnOf(s.sort), IO: w.io}, w.jsonFO)
 		case "ent":
 			nl, err = ipfslog.NewFromEntry(w.ctx, w.api, ident, s.log.Heads().Slice(), &ipfslog.LogOptions{SortFn: sortFnOf(s.sort), IO: w.io},
 				&entry.FetchOptions{Length: lp, Concurrency: conc})
@@ -657,6 +679,9 @@ func runCore(seed int64, nHist, nOps int, out *bufio.Writer, thorough bool) *cor
 				kb[i] = byte(r.Intn(256))
 			}
 			lk, _ := enc.NewSecretbox(kb)
+			for i := range kb {
+				kb[i] = 0 // the key buffer is wiped after construction: the SharedKey must own its bytes
+			}
 			w.ioDec = mustIO().ApplyOptions(&cbor.Options{LinkKey: lk})
 			w.io = w.ioDec
 			stats.KeyedHists++
